@@ -2947,3 +2947,33 @@ def spec_range_sugar(fns, consts):
 
 
 SPECS["C04"].append(spec_range_sugar)
+
+
+# ------------------------------------------------------------------ C20: wrapping only trims the END of the text
+
+def spec_styled_wrap_trim(fns, consts):
+    """StyledStr::wrap (feature wrap_help), every return path: the rebuilt text is trimmed at its END only
+    (`str::trim_end`), never at the start - leading blank lines and the first line's indent are part of
+    the author's text; words are taken from find_words_ascii_space and go through LineWrapper::wrap."""
+    con = contracts.Contracts(fns, default_pure=True)
+    ctx = symex.Ctx(consts, con)
+    c = [f for n, f in fns.items() if n.endswith("::wrap") and "styled_str.rs" in n]
+    if len(c) != 1:
+        raise Unsupported(f"StyledStr::wrap (wrap_help) not found exactly once ({len(c)})")
+    fn = c[0].get()
+    ex = symex.Exec(ctx, fn, [("opq", "self"), ("bv", ctx.sym("hard_width", "(_ BitVec 64)"), 64)])
+    ex.run(havoc_unassigned=True, cut_loops=True)
+    obs = []
+    for (pc, val), ca in zip(ex.returns, ex.return_callargs):
+        cn = [x[0] for x in ca]
+        trims = [x for x in cn if re.search(r"core::str::<impl str>::trim(_\w+)?$", x)]
+        ok = trims == ["core::str::<impl str>::trim_end"]
+        obs.append({"fn": fn.name, "block": "ret", "kind": "spec", "target": "styled_wrap_trim", "msg": "the wrapped text is trimmed at its end only (trim_end, once)" + ("" if ok else f" - found {[t.split('::')[-1] for t in trims]}"),
+                    "pc": list(pc), "neg": "false" if ok else "true"})
+    loop_calls = {x[0] for _, env in ex.cuts for x in env.get("#callargs", ())}
+    ok = any(x.endswith("find_words_ascii_space") for x in loop_calls) and any(re.search(r"LineWrapper::<'_>::wrap$|LineWrapper::wrap$", x) for x in loop_calls)
+    obs.append({"fn": fn.name, "block": "loop", "kind": "spec", "target": "styled_wrap_trim", "msg": "every line's words come from find_words_ascii_space and go through LineWrapper::wrap", "pc": [], "neg": "false" if ok else "true"})
+    return ctx, obs, [_enc(fn, ex, len(ex.returns))], con
+
+
+SPECS["C20"].append(spec_styled_wrap_trim)
